@@ -331,10 +331,11 @@ func (x *X) obligation(st *State, kind, label string, goal Term, pos token.Pos, 
 	if g.S == "true" {
 		// trivially discharged; still count it so obligation sets are stable
 	}
+	explicit := props != nil
 	if props == nil {
 		props = x.props
 	}
-	x.vc.oblige(&Obligation{Name: name, Kind: kind, Func: x.topName(), Goal: g, Pos: x.posStr(pos), Text: text, Props: props})
+	x.vc.oblige(&Obligation{Name: name, Kind: kind, Func: x.topName(), Goal: g, Pos: x.posStr(pos), Text: text, Props: props, Explicit: explicit})
 }
 
 func (x *X) topName() string { return funcName(x.top) }
